@@ -31,11 +31,11 @@ ASSUMPTIONS = [
     "apply_cluster_rules may add ancillary genes to a rule's anchoring set; they must carry a rule profile and lie within the cutoff of a true anchor",
 ]
 BOUNDS = {
-    "quick": "detect: trees <= 2 leaves x 1-neighbour worlds x 12x6 hit assignments; apply: same trees x 1-neighbour worlds (cutoffs 6,3,6)",
-    "thorough": "detect: trees <= 3 leaves x 1-neighbour worlds x 12x12 hit assignments; trees <= 2 leaves x 2-neighbour worlds (6^3 hit assignments); apply: trees <= 2 leaves x 1- and 2-neighbour worlds",
+    "quick": "detect: trees <= 2 leaves x 1-neighbour worlds x 12x6 hit assignments; apply: same trees x 1-neighbour worlds (cutoffs 6,3,6); both again with a gene hit twice by one profile (strong+weak hit, either list order; 11x11 assignments holding such a gene)",
+    "thorough": "detect: trees <= 3 leaves x 1-neighbour worlds x 12x12 hit assignments; trees <= 2 leaves x 2-neighbour worlds (6^3 hit assignments); apply: trees <= 2 leaves x 1- and 2-neighbour worlds; twice-hit genes: detect trees <= 3 leaves, apply trees <= 2 leaves, 1-neighbour worlds",
 }
 REQUIRED_BUCKETS = {t: ["detect:met", "detect:not-met", "detect:anchoring", "detect:neighbour-in-range-across-origin",
-                        "detect:focus-spans-origin", "apply:anchors"] for t in ("quick", "thorough")}
+                        "detect:focus-spans-origin", "apply:anchors", "twice-hit-gene"] for t in ("quick", "thorough")}
 C1, C2 = 6, 3
 N_CHUNKS = 32
 
@@ -43,9 +43,9 @@ N_CHUNKS = 32
 def shards(tier):
     out = []
     if tier == "quick":
-        plans = [("detect", 1, 2), ("apply", 1, 2)]
+        plans = [("detect", 1, 2), ("apply", 1, 2), ("detect+dup", 1, 2), ("apply+dup", 1, 2)]
     else:
-        plans = [("detect", 1, 3), ("detect", 2, 2), ("apply", 1, 2), ("apply", 2, 2)]
+        plans = [("detect", 1, 3), ("detect", 2, 2), ("apply", 1, 2), ("apply", 2, 2), ("detect+dup", 1, 3), ("apply+dup", 1, 2)]
     for mode, n_nb, leaves in plans:
         for chunk in range(N_CHUNKS):
             out.append([mode, n_nb, leaves, chunk, tier])
@@ -53,7 +53,19 @@ def shards(tier):
 
 
 def _hit_objects(hits):
-    return {g: [ProfileHit(g, p, s, 0.1) for p, s in sorted(hs.items())] for g, hs in hits.items() if hs}
+    out = {}
+    for g, hs in hits.items():
+        if not hs:
+            continue
+        objs = []
+        for p, s in sorted((k, v) for k, v in hs.items() if k[0] not in "<>"):
+            if "<" + p in hs:           # a second, weaker hit of the same profile listed before the best one
+                objs.append(ProfileHit(g, p, hs["<" + p], 0.1))
+            objs.append(ProfileHit(g, p, s, 0.1))
+            if ">" + p in hs:           # ... or after it
+                objs.append(ProfileHit(g, p, hs[">" + p], 0.1))
+        out[g] = objs
+    return out
 
 
 def check_detect(world, hits, tree, cutoff, focus, built=None):
@@ -118,6 +130,8 @@ def _judge_apply(rec, rules, tree, cutoffs, hits, hit_objs, nears, world):
 
 def run_shard(shard):
     mode, n_nb, leaves, chunk = shard[:4]
+    dup = mode.endswith("+dup")      # genes hit twice by the same profile (one strong, one weak hit, in both list orders)
+    mode = mode.split("+")[0]
     res = Result()
     trees = U.trees(leaves)
     if leaves >= 2:
@@ -131,6 +145,8 @@ def run_shard(shard):
             menus = [W.HIT_MENU_SMALL, W.HIT_MENU_SMALL]
     else:
         menus = [W.HIT_MENU_SMALL] * (n_nb + 1)
+    if dup:
+        menus = [W.HIT_MENU_SMALL + W.HIT_MENU_DUP] * (n_nb + 1)
     rules = [DetectionRule("r", "cat", C1, 0, U.top(t)) for t in trees] if mode == "detect" else None
     rule_sets = [[DetectionRule(f"r{i}", "cat", c, 0, U.top(t)) for i, c in enumerate((C1, C2, C1))] for t in trees] \
         if mode == "apply" else None
@@ -149,6 +165,10 @@ def run_shard(shard):
             hits = dict(zip(names, combo))
             if not any(combo):
                 continue
+            if dup and not any(h in W.HIT_MENU_DUP for h in combo):
+                continue
+            if dup:
+                res.buckets["twice-hit-gene"] += 1
             hit_objs = _hit_objects(hits)
             nontrivial = any(combo[1:])
             if mode == "detect":
